@@ -255,6 +255,8 @@ def run_rc_stage(ctx, prop, stage, tier, res):
         n = max(50, int(ncases * stage.get('case_scale', {}).get(cfg, 1.0)))
         env['RC_PARAMS'] = 'seed=%d max_success=%d max_size=%d' % (seed, n, max_size)
         cmd = [bins[cfg], 'run', '--frag', frag, '--replay-out', rep]
+        if stage.get('shrink_budget'):
+            cmd += ['--shrink-budget', str(stage['shrink_budget'])]
         if known_ids:
             cmd += ['--known', ','.join(known_ids)]
         if tier == 'thorough':
